@@ -491,7 +491,9 @@ func ParseSps(sps []byte, ctx *Context) error {
 		return nazaerrors.Wrap(base.ErrHevc)
 	}
 
-	rbsp := nal2rbsp(sps[2:])
+	// one zero byte behind the RBSP copy: nazabits' zero-width read at the end of a ue(v) of value 0
+	// indexes past the buffer when the code word ends with the last bit (see avc.ParseSps)
+	rbsp := append(nal2rbsp(sps[2:]), 0)
 	br := nazabits.NewBitReader(rbsp)
 
 	// sps_video_parameter_set_id
